@@ -70,7 +70,15 @@ fn load_known(root: &str) -> Vec<KnownFinding> {
 
 fn known_match<'a>(known: &'a [KnownFinding], v: &Violation) -> Option<&'a KnownFinding> {
     let sig = v.signature();
-    known.iter().find(|k| k.status == "open" && k.property == v.prop && sig.starts_with(&k.signature_prefix))
+    // a trailing '*' makes the listed signature a prefix; otherwise it must match exactly
+    known.iter().find(|k| {
+        k.status == "open"
+            && k.property == v.prop
+            && match k.signature_prefix.strip_suffix('*') {
+                Some(p) => sig.starts_with(p),
+                None => sig == k.signature_prefix,
+            }
+    })
 }
 
 struct Agg {
@@ -406,6 +414,9 @@ fn cmd_check(root: &str, prop: &str, tier: &str) -> i32 {
     let mut per_scn = Vec::new();
     for e in &entries {
         let n = ((if tier == "quick" { e.quick } else { e.thorough }) as f64 * scale) as u64;
+        if n == 0 {
+            continue;
+        }
         let before = agg.runs;
         let t0 = Instant::now();
         run_entry(prop, &e.scenario, n.max(1), verif_seed, workers, deadline, &mut agg, &known);
